@@ -37,6 +37,7 @@ class Collector:
 
 
 _SK = [0]
+_HOOK = None
 
 
 _IDX_CACHE = {}
@@ -99,75 +100,136 @@ def instantiate(qhyps, base_formulas, extra_terms=(), goal_formulas=(), cap=1500
 
     def round_(terms):
         new = []
+        fresh_terms = []
         for t in terms:
             if t.get_id() in known:
                 continue
             known[t.get_id()] = t
             for q in qhyps:
                 if len(inst) + len(new) >= cap:
-                    return new
+                    return new, fresh_terms
                 key = (id(q), t.get_id())
                 if key in done:
                     continue
                 done.add(key)
                 new.append(q.at(t))
-        return new
+                fresh_terms.extend(q.index_terms_at(t, _index_terms_of))
+        return new, fresh_terms
     first = list(extra_terms) + _index_terms(goal_formulas)
-    r1 = round_(first)
+    r1, t1 = round_(first)
     inst.extend(r1)
-    r2 = round_(_index_terms(r1))
+    r2, t2 = round_(t1)
     inst.extend(r2)
-    r3 = round_(_index_terms(base_formulas))
+    r3, t3 = round_(_index_terms(base_formulas))
     inst.extend(r3)
-    r4 = round_(_index_terms(r2 + r3))
+    r4, _ = round_(t2 + t3)
     inst.extend(r4)
     return inst
 
 
-def discharge_goal(pc, goal, inputs, qhyps, timeout_ms):
-    """Goal may contain bounded quantifiers: skolemise them; instantiate hypothesis quantifiers."""
-    from .logic import flatten_goal
-    from .logic import Via
+def _prepare(goal):
+    """-> parts [(goal | Via, extra hypotheses, skolems)]"""
+    from .logic import flatten_goal, Via
     plain, qs = flatten_goal(goal)
     parts = []
-    cuts = []
     for g in plain:
-        if isinstance(g, Via):
-            for f in g.facts:
-                parts.append((f, [], []))
-            cuts.append(g)
-        else:
-            parts.append((g, [], []))
+        parts.append((g, [], []))
     for q in qs:
         _SK[0] += 1
         sk = z3.Int(f"sk!{q.name}!{_SK[0]}")
         parts.append((q.raw(sk), [q.lo <= sk, sk < q.hi], [sk]))
     if not parts:
         parts = [(z3.BoolVal(True), [], [])]
+    return parts
+
+
+def _merge(agg, r):
+    if agg is None:
+        return dict(r)
+    agg["time_s"] += r["time_s"]
+    if r["status"] == "refuted" and agg["status"] != "refuted":
+        agg.update(status="refuted", model=r["model"], backend=r["backend"])
+    elif r["status"] == "undecided" and agg["status"] == "discharged":
+        agg.update(status="undecided", backend=r["backend"])
+    return agg
+
+
+def _one(pc, g, extra, sks, inputs, qhyps, timeout_ms):
+    gs = z3.simplify(g)
+    if z3.is_true(gs):
+        return dict(status="discharged", backend="z3-simplify", time_s=0.0, model=None)
+    inst = instantiate(qhyps, list(pc) + extra, extra_terms=sks, goal_formulas=[gs])
+    return discharge(list(pc) + extra + inst, gs, inputs, timeout_ms)
+
+
+def discharge_goal(pc, goal, inputs, qhyps, timeout_ms, prepared=None):
+    """Goal may contain bounded quantifiers: skolemise them; instantiate hypothesis quantifiers."""
+    from .logic import Via
+    from .solve import quick_linear
+    parts = prepared or _prepare(goal)
     agg = None
     for g, extra, sks in parts:
-        gs = z3.simplify(g)
-        if z3.is_true(gs):
-            r = dict(status="discharged", backend="z3-simplify", time_s=0.0, model=None)
+        if isinstance(g, Via):
+            # cut rule: first see whether the goal follows by matching; otherwise facts from the path, goal from the facts
+            inst = instantiate(qhyps, list(pc), goal_formulas=[g.goal])
+            r = quick_linear(list(pc) + inst, g.goal, timeout_ms)
+            if r is None:
+                from .logic import via_leaves, via_cuts
+                r = None
+                for f in via_leaves(g):
+                    r = _merge(r, _one(pc, f, [], [], inputs, qhyps, timeout_ms))
+                for facts, gl in via_cuts(g):
+                    r = _merge(r, discharge([], z3.Implies(z3.And(*facts), gl), inputs, timeout_ms))
         else:
-            inst = instantiate(qhyps, list(pc) + extra, extra_terms=sks, goal_formulas=[gs])
-            r = discharge(list(pc) + extra + inst, gs, inputs, timeout_ms)
-        if agg is None:
-            agg = dict(r)
-        else:
-            agg["time_s"] += r["time_s"]
-            if r["status"] == "refuted" and agg["status"] != "refuted":
-                agg.update(status="refuted", model=r["model"], backend=r["backend"])
-            elif r["status"] == "undecided" and agg["status"] == "discharged":
-                agg.update(status="undecided", backend=r["backend"])
-    for cut in cuts:
-        r = discharge([], z3.Implies(z3.And(*cut.facts), cut.goal), inputs, timeout_ms)
-        agg["time_s"] += r["time_s"]
-        if r["status"] == "refuted" and agg["status"] != "refuted":
-            agg.update(status="refuted", model=r["model"], backend=r["backend"])
-        elif r["status"] == "undecided" and agg["status"] == "discharged":
-            agg.update(status="undecided", backend=r["backend"])
+            r = _one(pc, g, extra, sks, inputs, qhyps, timeout_ms)
+        agg = _merge(agg, r)
     return agg
+
+
+def discharge_batch(pc, goals, inputs, qhyps, timeout_ms):
+    """All obligations of one program point at once (same path condition): prove the conjunction by matching
+    (linear abstraction).  -> result if the conjunction was discharged (then every member is), else None
+    (the caller falls back to one by one, with the full nonlinear solver)."""
+    from .logic import Via
+    from .solve import quick_linear
+    prepared = []
+    conj, sks, goal_fs = [], [], []
+    for g in goals:
+        pr = _prepare(g)
+        prepared.append(pr)
+        for gg, extra, sk in pr:
+            if isinstance(gg, Via):
+                from .logic import via_leaves
+                for lf in via_leaves(gg):     # leaf facts join the batch; the small cut VCs follow
+                    ls = z3.simplify(lf)
+                    if not z3.is_true(ls):
+                        conj.append(ls)
+                        goal_fs.append(ls)
+                continue
+            gs = z3.simplify(gg)
+            if z3.is_true(gs):
+                continue
+            conj.append(z3.Implies(z3.And(*extra), gs) if extra else gs)
+            sks.extend(sk)
+            goal_fs.append(gs)
+    t0 = time.time()
+    if not conj:
+        return dict(status="discharged", backend="z3-simplify(batched)", time_s=0.0, model=None), prepared
+    inst = instantiate(qhyps, list(pc), extra_terms=sks, goal_formulas=goal_fs, cap=2500)
+    r = quick_linear(list(pc) + inst, z3.And(*conj), timeout_ms)
+    if r is None:
+        return None, prepared
+    agg = dict(status="discharged", backend=r["backend"] + "(batched)", time_s=time.time() - t0, model=None)
+    from .logic import via_cuts
+    for pr in prepared:
+        for gg, extra, sk in pr:
+            if isinstance(gg, Via):
+                for facts, gl in via_cuts(gg):
+                    rv = discharge([], z3.Implies(z3.And(*facts), gl), inputs, timeout_ms)
+                    if rv["status"] != "discharged":
+                        return None, prepared
+    agg["time_s"] = time.time() - t0
+    return agg, prepared
 
 
 class Job:
@@ -232,11 +294,9 @@ def explore(job: Job, timeout_ms=10000, max_paths=50000):
             break
     clauses = {}
     import os as _os
-    for (cl, g, pc, props, note, inputs, qh) in vcs:
-        _t = time.time()
-        r = discharge_goal(pc, g, inputs, qh, timeout_ms)
-        if _os.environ.get("PYCV_TRACE"):
-            print(f"   vc {cl[:90]:<90} pc={len(pc)} qh={len(qh)} {r['status']} {r['backend']} {time.time() - _t:.2f}s", flush=True)
+    trace = _os.environ.get("PYCV_TRACE")
+
+    def record(cl, props, note, pc, r):
         e = clauses.setdefault(cl, dict(clause=cl, status="discharged", vcs=0, time_s=0.0, backends=set(),
                                         model=None, props=props, note=None, smt_size=0))
         e["vcs"] += 1
@@ -250,6 +310,41 @@ def explore(job: Job, timeout_ms=10000, max_paths=50000):
             e["status"] = "refuted"
         elif r["status"] == "undecided" and e["status"] == "discharged":
             e["status"] = "undecided"
+
+    # group the obligations of one program point (identical path condition) and try them as one conjunction
+    groups = {}
+    order = []
+    for item in vcs:
+        pc, qh = item[2], item[6]
+        key = (len(pc), pc[-1].get_id() if pc else 0, len(qh), qh[-1]._ph.get_id() if qh else 0)
+        if key not in groups:
+            groups[key] = []
+            order.append(key)
+        groups[key].append(item)
+    for key in order:
+        items = groups[key]
+        prepared = [None] * len(items)
+        done = False
+        if len(items) >= 2 and len(items[0][2]) > 0:
+            _t = time.time()
+            res, prepared = discharge_batch(items[0][2], [it[1] for it in items], items[0][5], items[0][6], timeout_ms)
+            if res is not None:
+                share = res["time_s"] / len(items)
+                for (cl, g, pc, props, note, inputs, qh) in items:
+                    record(cl, props, note, pc, dict(res, time_s=share))
+                done = True
+            if trace:
+                print(f"   batch of {len(items)} at pc={len(items[0][2])} {'discharged' if done else 'split'} {time.time() - _t:.2f}s", flush=True)
+        if done:
+            continue
+        for k, (cl, g, pc, props, note, inputs, qh) in enumerate(items):
+            _t = time.time()
+            if _HOOK:
+                _HOOK(cl)
+            r = discharge_goal(pc, g, inputs, qh, timeout_ms, prepared=prepared[k])
+            if trace:
+                print(f"   vc {cl[:90]:<90} pc={len(pc)} qh={len(qh)} {r['status']} {r['backend']} {time.time() - _t:.2f}s", flush=True)
+            record(cl, props, note, pc, r)
     for e in clauses.values():
         e["backends"] = sorted(e["backends"])
     missing = [cv for cv in job.expect_covers if cv not in covers]
